@@ -495,8 +495,9 @@ C13a(g, o, g2) ==
 C13b(g, o, g2) == /\ g2.up => o.now2 <= g2.lastSweep + PERIOD
                   /\ (o.e.k \in {"Sweep", "Start"}) => o.err = ABSENT
 \* (c) quiescence: everybody gone for EXP + PERIOD => nothing is stored
+NobodyThere(g) == \A c \in Conns : ~g.gc[c].up
 C13c(g, o, g2) ==
-  (g2.up /\ o.now2 > g2.idleSince + EXP + PERIOD /\ g2.upSince <= g2.idleSince
+  (g2.up /\ NobodyThere(g2) /\ o.now2 > g2.idleSince + EXP + PERIOD /\ g2.upSince <= g2.idleSince
         /\ o.e.k = "Sweep" /\ ~o.e.fault)
        => EmptyStore(o.db2)
 
@@ -705,7 +706,7 @@ Ante(p, g, o, g2) ==
                         \E x \in g.lastSub : x.app = r.app /\ x.mbox = r.id /\ o.now - x.t < EXP - PERIOD
     [] p = "C13.a" -> o.e.k \in {"Sweep", "Start"} /\ ~o.e.fault /\ \E r \in o.db.mb : Idle(g, o, r.app, r.id)
     [] p = "C13.b" -> o.e.k = "Sweep" /\ g.faulted
-    [] p = "C13.c" -> g2.up /\ o.now2 > g2.idleSince + EXP + PERIOD /\ g2.upSince <= g2.idleSince /\ o.e.k = "Sweep" /\ ~o.e.fault
+    [] p = "C13.c" -> g2.up /\ NobodyThere(g2) /\ o.now2 > g2.idleSince + EXP + PERIOD /\ g2.upSince <= g2.idleSince /\ o.e.k = "Sweep" /\ ~o.e.fault
     [] p = "C15.a" -> C15ante(g, o, g2) /\ GoneNp(o) # {}
     [] p = "C15.b" -> C15ante(g, o, g2) /\ GoneMb(o) # {}
     [] p = "C15.c" -> C15ante(g, o, g2) /\ o.e.k = "Sweep" /\ \E x \in Conns : g2.gc[x].held
